@@ -502,4 +502,26 @@ def otherNames : List String := ["z_effective", "b_field"]
 /-- is this `evaluate` parameter a density, a temperature or an energy? -/
 def isDTE (p : String) : Bool := dteNames.contains p
 
+/-! ## Part 3 — a provider that remembers answers (the round-4 memo class)
+
+`OpenADAS` at HEAD keeps no per-instance state: its model is the pure function `Policy.run` / `Policy.wavelengthLookup`.
+A provider that memoises under a key is the state machine below; `Props/C07.lean` proves that it answers every history
+like the stateless function **iff** the key determines the answer. -/
+namespace Memo
+
+variable {ρ κ σ : Type} [DecidableEq κ]
+
+/-- one request against the memo: a hit returns the remembered answer, a miss computes, remembers and returns -/
+def step (key : ρ → κ) (f : ρ → σ) (memo : List (κ × σ)) (r : ρ) : List (κ × σ) × σ :=
+  match memo.find? (fun e => e.1 = key r) with
+  | some e => (memo, e.2)
+  | none => ((key r, f r) :: memo, f r)
+
+/-- the answers to a history of requests, starting from `memo` -/
+def answers (key : ρ → κ) (f : ρ → σ) : List (κ × σ) → List ρ → List σ
+  | _, [] => []
+  | memo, r :: rest => (step key f memo r).2 :: answers key f (step key f memo r).1 rest
+
+end Memo
+
 end Cherab.Rates
